@@ -386,6 +386,8 @@ def restrict(v, cond):
         return StructV(v.adt, v.variant, {k: restrict(x, cond) for k, x in v.fields.items()}, v.base, v.node)
     if isinstance(v, CallV):
         return CallV(v.callee, [restrict(a, cond) for a in v.args], v.node, getattr(v, "inst", None))
+    if isinstance(v, OpV):
+        return OpV(v.op, [restrict(a, cond) for a in v.args])
     return v
 
 
